@@ -4,14 +4,14 @@ package interp
 
 import (
 	"fmt"
-	"os"
-	"time"
 	"go/token"
 	"go/types"
+	"os"
 	"path/filepath"
 	"strings"
 	"sync"
 	"sync/atomic"
+	"time"
 
 	"golang.org/x/tools/go/ssa"
 )
